@@ -51,16 +51,10 @@ Lemma orb_false_elim' a b : a || b = false -> a = false /\ b = false.
 Proof. apply orb_false_iff. Qed.
 
 Lemma Known_rr_false o z u : Known_rr o z u = false ->
-  apex_wipe o u = false /\ soa_not_apex o u = false /\
-  ((rclass u =? cANY) && (rtype u =? tANY) && (has_rrset z (rname u, tNS) || has_rrset z (rname u, tSOA))) = false /\
+  soa_not_apex o u = false /\
   has_empty_at z (rname u) = false /\
   ((rclass u =? cIN) && existsb (fun r => rdata_eqb (fst r) (rdat u) && negb (snd r =? rttl u))
                                    (recs_at z (rname u, rtype u))) = false /\
-  ((rclass u =? cIN) && (rtype u =? tSOA) &&
-      match recs_at z (rname u, tSOA), rdat u with
-      | (DSoa zs _, _) :: _, DSoa ns _ => negb (Bool.eqb (soa_newer ns zs) (serial_lt zs ns))
-      | _, _ => false
-      end) = false /\
   exempt (rtype u) = false /\ (rtype u =? tANAME) = false /\ has_exempt_at z (rname u) = false.
 Proof.
   unfold Known_rr. intros H.
@@ -116,7 +110,7 @@ Lemma upsert_is_rfc o z u :
   same_records (fst (upsert z u)) (rfc_rr o z u).
 Proof.
   intros W Hk Hc. apply Known_rr_false in Hk.
-  destruct Hk as (_ & Hsna & _ & He & Httl & Hsoa & Hex & Han & Hxa).
+  destruct Hk as (Hsna & He & Httl & Hex & Han & Hxa).
   unfold rfc_rr. rewrite Hc in *. replace (cIN =? cIN) with true in * by reflexivity. cbn [andb] in *.
   rewrite <- (blocked_iff_rfc_skip z u He Hxa Hex).
   unfold upsert. rewrite Hc. replace (cIN =? cIN) with true by reflexivity. cbn [negb].
@@ -125,12 +119,11 @@ Proof.
   unfold rs_insert. destruct (rtype u =? tSOA) eqn:Es.
   - (* SOA: the owner is the apex *)
     apply N.eqb_eq in Es. unfold soa_not_apex in Hsna. rewrite Hc, Es in Hsna. cbn in Hsna.
-    cbn [andb] in Hsoa.
     apply negb_false_iff, name_eqb_eq in Hsna.
     destruct (wf_soa _ _ W) as (zs & zr & zttl & Hg). rewrite Es, Hsna in *.
     rewrite (recs_at_some _ _ _ Hg) in *.
     destruct (rdat u) as [| | |ns nr] eqn:Ed; try apply same_refl.
-    apply negb_false_iff, Bool.eqb_prop in Hsoa. rewrite <- Hsoa.
+    rewrite <- soa_newer_serial_lt.
     destruct (soa_newer ns zs); cbn [fst]; apply same_refl.
   - rewrite Han, orb_false_r. destruct (rtype u =? tCNAME) eqn:Ec2; cbn [fst]; [apply same_refl|].
     destruct (existsb (fun r : rdata * N => rdata_eqb (fst r) (rdat u)) (recs_at z (rname u, rtype u))) eqn:Ee; cbn [fst].
@@ -154,7 +147,7 @@ Lemma any_is_rfc o z u z' b :
   apply_rr o z u = Some (z', b) -> same_records z' (rfc_rr o z u).
 Proof.
   intros Hk Hc Ha. apply Known_rr_false in Hk.
-  destruct Hk as (Hw & _ & Hns & He & _ & _ & _ & _ & _).
+  clear Hk.
   unfold apply_rr, rfc_rr. rewrite Hc, Ha.
   destruct (((rtype u =? tSOA) || (rtype u =? tNS)) && name_eqb (rname u) o) eqn:Eg.
   - intros H; inversion H; subst. apply andb_true_iff in Eg. destruct Eg as [Et En].
@@ -163,19 +156,13 @@ Proof.
     rewrite En, Et. apply same_refl.
   - destruct (rtype u =? tANY) eqn:Ea.
     + intros H; inversion H; subst. clear H.
-      unfold apex_wipe in Hw. rewrite ?Ha, ?Ea in Hw. cbn [andb] in Hw. rewrite Hw.
-      rewrite ?Ha, ?Ea in Hns. cbn [andb] in Hns. apply orb_false_iff in Hns. destruct Hns as [Hn1 Hn2].
       intros k. unfold retain_any.
       rewrite (recs_at_filter (retain_keep o (rname u))).
-      rewrite (recs_at_filter (fun k0 => negb (name_eqb (fst k0) (rname u)) || (false && ((snd k0 =? tSOA) || (snd k0 =? tNS))))).
-      unfold retain_keep. destruct k as [kn kt]. cbn [fst snd andb]. rewrite orb_false_r.
+      rewrite (recs_at_filter (fun k0 => negb (name_eqb (fst k0) (rname u))
+                                         || (name_eqb (rname u) o && ((snd k0 =? tSOA) || (snd k0 =? tNS))))).
+      unfold retain_keep. destruct k as [kn kt]. cbn [fst snd].
       destruct (name_eqb kn (rname u)) eqn:Ek; cbn [negb orb]; [|reflexivity].
-      apply name_eqb_eq in Ek. subst kn. apply name_eqb_neq in Hw.
-      assert (name_eqb (rname u) o = false) as -> by now apply name_eqb_neq. cbn [negb andb].
-      rewrite andb_true_r.
-      destruct (kt =? tSOA) eqn:E1; [apply N.eqb_eq in E1; subst; now rewrite (has_rrset_false_recs _ _ Hn2)|].
-      destruct (kt =? tNS) eqn:E2; [apply N.eqb_eq in E2; subst; now rewrite (has_rrset_false_recs _ _ Hn1)|].
-      reflexivity.
+      apply name_eqb_eq in Ek. subst kn. now rewrite andb_comm.
     + destruct (rdat u); try discriminate. intros H; inversion H; subst.
       rewrite andb_comm in Eg. rewrite Eg. apply same_refl.
 Qed.
@@ -197,7 +184,7 @@ Lemma none_is_rfc o z u z' b :
   apply_rr o z u = Some (z', b) -> same_records z' (rfc_rr o z u).
 Proof.
   intros Hk Hc Ha Hn. apply Known_rr_false in Hk.
-  destruct Hk as (_ & _ & _ & He & _ & _ & _ & _ & _).
+  destruct Hk as (_ & He & _ & _ & _ & _).
   unfold apply_rr, rfc_rr. rewrite Hc, Ha, Hn.
   destruct (zget z (rname u, rtype u)) as [l|] eqn:Eg.
   2:{ intros H; inversion H; subst. destruct (rtype u =? tSOA); [apply same_refl|].
@@ -254,5 +241,5 @@ Proof.
   apply andb_true_iff in Hg. destruct Hg as [Hk Hg]. apply negb_true_iff in Hk.
   destruct (apply_rr o z u) as [[z' b]|] eqn:Ea; [|discriminate]. split.
   - eapply apply_rr_is_rfc; eauto.
-  - apply IH; [|exact Hg]. destruct (Known_rr_ok _ _ _ Hk) as [H1 H2]. eapply apply_rr_WF; eauto.
+  - apply IH; [|exact Hg]. pose proof (Known_rr_ok _ _ _ Hk) as H1. eapply apply_rr_WF; eauto.
 Qed.
